@@ -226,6 +226,14 @@ class TzInterp:
             return None
         env = {ps[0]: DTv(1, 0, 'orig', True)}
         res = None
+        if any(isinstance(st, ast.If) for st in body):
+            # early-return / if-else spellings: evaluate the equivalent
+            # single expression
+            e = norm.as_expression(fi.node)
+            if e is not None:
+                res = self.ev(e, env)
+                self.summaries[fi.key] = res
+                return res
         for st in body:
             if isinstance(st, ast.Assign) and isinstance(
                     st.targets[0], ast.Name):
@@ -327,8 +335,10 @@ def check_instants(repo, rep, uni):
     ps = f.params()
     ov = declared(uni, f)
     aware = (ov.params[0].type.cls or '').endswith('.DateTime')
-    res = tz.ev(model.strip_docstring(f.node.body)[-1].value,
-                {ps[0]: DTv(1, 0, 'orig', aware)})
+    oexpr = norm.as_expression(f.node)
+    if oexpr is None:
+        oexpr = model.strip_docstring(f.node.body)[-1].value
+    res = tz.ev(oexpr, {ps[0]: DTv(1, 0, 'orig', aware)})
     ok = isinstance(res, Off) and res.of == 'orig' and not res.maybe_none
     rep.ob('R20a', f.key, ok,
            'offset(dt) must be dt\'s own UTC offset, zero for a naive '
@@ -384,6 +394,21 @@ def check_naive_safety(repo, rep, uni, tz):
                         up = getattr(call, '_parent', None)
                         guarded = isinstance(up, ast.BoolOp) and isinstance(
                             up.op, ast.Or) and up.values[0] is call
+                        if not guarded:
+                            # the same thing spelled with a local and an
+                            # if / early return
+                            e = norm.as_expression(fi.node)
+                            if e is not None:
+                                model._attach_parents(e)
+                                offs = [x for x in ast.walk(e) if isinstance(
+                                    x, ast.Call) and isinstance(
+                                    x.func, ast.Attribute) and
+                                    x.func.attr == 'utcoffset']
+                                guarded = bool(offs) and all(
+                                    isinstance(getattr(x, '_parent', None),
+                                               ast.BoolOp) and isinstance(
+                                        x._parent.op, ast.Or) and
+                                    x._parent.values[0] is x for x in offs)
                         if not guarded:
                             bad.append((par, 'utcoffset() of a possibly '
                                         'naive datetime is None and is used '
@@ -477,6 +502,8 @@ def check_units(repo, rep):
     ts = f.params()[0]
     body = model.strip_docstring(f.node.body)
     v = body[-1].value if isinstance(body[-1], ast.Return) else None
+    if v is not None:
+        v = norm.subst_locals(f.node, v)
     # a linear form in .days, .seconds, .microseconds
     coef = {}
 
@@ -513,6 +540,9 @@ def check_units(repo, rep):
         f = mod.func(name)
         body = model.strip_docstring(f.node.body)
         v = body[-1].value if isinstance(body[-1], ast.Return) else None
+        if v is not None:
+            v = norm.inline_simple_calls(repo, mod, norm.subst_locals(
+                f.node, v), exclude=set(UNITS))
         ok = False
         got = None
         if isinstance(v, ast.BinOp) and isinstance(v.op, ast.Div) and \
